@@ -28,7 +28,9 @@ solver returns").  Every theorem about a fitting routine carries the guard of it
 (`InterpCurveOk`, `InterpSurfOk`, `ApproxCurveOk`, `ApproxSurfOk`, Lemmas/FitGuards.lean): the inputs on which the real
 routine reaches the solver instead of raising – degree ≥ 1, enough points, at least THREE control points per
 direction for the approximations (with two the code raises `IndexError`, finding F-11a, while the model would return the
-segment / bilinear patch), `su·sv` data points, and a non-zero total chord length in every data line (otherwise
+segment / bilinear patch), `su·sv` data points, data points that all have the same number `≥ 2` of coordinates
+(`RectData`: on ragged data `linalg.point_distance` raises `ValueError`, on 1-D data the control point setter raises
+"should be at least 2-dimensional", while the model would go on), and a non-zero total chord length in every data line (otherwise
 `compute_params_curve` raises `ZeroDivisionError`, while the model's `x / 0 = 0` would go on).  `Geomdl.lsqError` / `Geomdl.lsqErrorEval` (Lemmas/FitApprox*.lean) are the
 spec-level sums `Σ_{k=1}^{nd−2} |Q_k − C(ū_k)|²` (with `C` written as `Σ_j N_{j,p} P_j` through
 `basis_function_one`, resp. with `C` the evaluated curve point of A3.1).  `Geomdl.ClampedKnots p n kv` (Lemmas/FitKnotsValid.lean,
@@ -759,7 +761,15 @@ theorem approximateSurface_knots_valid (pu pv su sv : ℕ) (pts : List (List K))
   approximateSurface_clampedKnots pu pv su sv pts cdsU cdsV ncu ncv fl kvu kvv cp hfl hg.pu1 hg.pv1 hg.pun hg.pvn
     hg.ndu hg.ndv (hg.chords hcU hcV).1 (hg.chords hcU hcV).2 h
 
-/-! ### Schoenberg–Whitney direction: the collocation matrix has a positive diagonal -/
+/-! ### Schoenberg–Whitney direction: the collocation matrix has a positive diagonal
+
+The three theorems of this section need `invp · p = 1`, i.e. the EXACT factor `1/p`.  The code multiplies by the
+double `1.0/degree`, which is exact for `p = 1, 2, 4, 8, …` only; for `p = 3, 5, 6, 7, 9, 10, …` the hypothesis is NOT
+met by the number the code (and the harness op `fit.icurve`) uses, and these theorems say nothing about such a run.
+The hypothesis is essential: open finding F-11b (`known_findings.json`) – six points
+`(0,0),(1,0),(1,e),(1,2e),(1,3e),(2,3e)`, `e = 2⁻⁶⁰`, degree 3, distinct consecutive points: with `1.0/3 = (1−2⁻⁵⁴)/3`
+the knot `U_5` falls below `ū_1`, the collocation diagonal is `+,0,+,+,+,+` and the real `interpolate_curve` raises
+`ZeroDivisionError` (example `rounded_third_breaks_diagonal` below). -/
 
 /-- **B-spline basis functions are positive inside their support**: for a non-decreasing knot function,
     `N_{i,p}(u) > 0` (Cox–de Boor, half-open convention) when `U_i ≤ u < U_{i+p+1}` and either `U_i < u` or
@@ -1158,5 +1168,30 @@ example : approximateSurface 1 1 3 3
       ([[0,0,0],[0,1,1],[0,2,0], [1,0,1],[1,1,5],[1,2,1], [2,0,0],[2,1,1],[2,2,3]] : List (List ℚ))
       [[1,1],[1,2],[2,1]] [[1,1],[1,2],[2,1]] 2 2 flQ
     = some ([0,0,1,1], [0,0,1,1], [[0,0,0],[0,2,0],[2,0,0],[2,2,3]]) := by decide +kernel
+
+/-! ### F-11b: the hypothesis `invp · p = 1` of the Schoenberg–Whitney theorems is essential, and the double `1.0/3` does not meet it -/
+
+/-- six data points with chords `1, e, e, e, 1`, `e = 2⁻⁶⁰` (consecutive points distinct) -/
+def e60 : ℚ := 1 / 2 ^ 60
+def ptsW : List (List ℚ) := [[0,0],[1,0],[1,e60],[1,2*e60],[1,3*e60],[2,3*e60]]
+def cdsW : List ℚ := [1, e60, e60, e60, 1]
+
+/-- **Recorded finding F-11b (as coded)**: the double `1.0/3` is not `1/3`; on the data `ptsW` (guard `InterpCurveOk`
+    met, every chord positive) the collocation matrix built with it has a ZERO diagonal entry and the model of
+    `interpolate_curve` does not return (the real code raises `ZeroDivisionError`, in exact mode and in doubles),
+    whereas with the exact `1/3` it returns.  So `invp · p = 1` cannot be dropped from
+    `interpolateCurve_collocation_diag_pos` / `averaged_schoenberg_whitney`, and "the solver returns" is not a
+    consequence of "distinct consecutive points" for the code as it runs. -/
+theorem rounded_third_breaks_diagonal :
+    InterpCurveOk 3 ptsW cdsW ∧ (∀ x ∈ cdsW, 0 < x) ∧ ¬ (dbl13 * (3 : ℚ) = 1) ∧
+    ent (buildCoeffMatrix 3 (fnOf (computeKnotVector 3 ptsW.length (computeParams cdsW) dbl13))
+      (computeParams cdsW) ptsW.length) 1 1 = 0 ∧
+    interpolateCurve 3 ptsW cdsW dbl13 = none ∧
+    (interpolateCurve 3 ptsW cdsW (1/3)).isSome = true := by
+  refine ⟨⟨by omega, by decide, by decide, by decide +kernel, 2, le_refl _, ?_⟩, by decide +kernel, by norm_num [dbl13],
+    by decide +kernel, by decide +kernel, by decide +kernel⟩
+  intro pt hpt
+  simp [ptsW] at hpt
+  rcases hpt with h | h | h | h | h | h <;> simp [h]
 
 end C11
